@@ -1,6 +1,7 @@
 // Plan generators: seeded, library-blind. Arguments are free integers that the
 // executor interprets modulo what is live, so generators need no dry-run model.
 #include "gen.h"
+#include <cstdlib>
 #include <cstring>
 #include "model.h"
 
@@ -10,6 +11,12 @@ const char *engine_of(const std::string &p) {
     if (p == "C09") return "cap";
     if (p == "C20") return "sched";
     return "hist";
+}
+// thorough tier: a third of the runs use histories up to three times as long (the plan text stays self-contained)
+static bool g_thorough = false;
+static int len_range(Rng &r, int lo, int hi) {
+    if (g_thorough && r.chance(1, 3)) return (int)r.range(hi, hi * 3);
+    return (int)r.range(lo, hi);
 }
 static int64_t d2bits(double d) { int64_t b; memcpy(&b, &d, 8); return b; }
 static int64_t R(Rng &r) { return (int64_t)(r.next() >> 2); }
@@ -62,7 +69,7 @@ static Step make_step(const std::string &op, Rng &r, bool utils_keys = false) {
     if (op == "refuse") return mk(op, {R(r), R(r), R(r), R(r), R(r)}, {key()});
     if (op == "parse") return mk(op, {R(r), R(r), R(r), R(r)});
     if (op == "print") return mk(op, {R(r), R(r), R(r), R(r), R(r)});
-    if (op == "build_deep") return mk(op, {R(r), R(r)});
+    if (op == "build_deep" || op == "build_wide") return mk(op, {R(r), R(r)});
     if (op == "roundtrip" || op == "strictprint" || op == "capscan") return mk(op, {R(r), R(r), R(r)});
     if (op == "sort") return mk(op, {R(r), R(r), R(r)});
     if (op == "twinprint") return mk(op, {R(r), R(r)});
@@ -72,7 +79,9 @@ static Step make_step(const std::string &op, Rng &r, bool utils_keys = false) {
     if (op == "ptr_find") return mk(op, {R(r), R(r)});
     if (op == "compare") return mk(op, {R(r), R(r), R(r), R(r), R(r)});
     if (op == "minify") return mk(op, {R(r), R(r)});
-    if (op == "dup_deep" || op == "dup_cyclic") return mk(op, {R(r), R(r)});
+    if (op == "dup_deep" || op == "dup_cyclic" || op == "dup_wide" || op == "dup_refcycle") return mk(op, {R(r), R(r)});
+    if (op == "sort_big") return mk(op, {R(r), R(r), R(r)});
+    if (op == "parse_bad") return mk(op, {R(r), R(r), R(r), R(r), R(r)});
     if (op == "hooks" || op == "arm") return mk(op, {R(r)});
     if (op == "poke_nan") return mk(op, {R(r), R(r)});
     return mk(op);
@@ -117,17 +126,18 @@ Plan gen_plan(const std::string &prop, uint64_t seed, int64_t run) {
     p.run = run;
     Rng r(mix64(mix64(seed, hash_str(prop)), (uint64_t)run));
     g_casekeys = false;
+    { const char *t = getenv("CJSIM_TIER"); g_thorough = t && !strcmp(t, "thorough"); }
     if (prop == "C06") {
         common_knobs(p, r, 0);
         auto mix = swarm(cat({CREATE, EDIT, EDIT, QUERY, {{"refuse", 6}, {"add_ref_arr", 2}, {"add_ref_obj", 2}, {"new_strref", 1}, {"delete", 2}, {"add_obj_alias", 1}}}), r);
         add_steps(p, CREATE, r, 3);
-        add_steps(p, mix, r, (int)r.range(5, 60));
+        add_steps(p, mix, r, len_range(r, 5, 60));
     } else if (prop == "C07") {
         common_knobs(p, r, 0);
         auto mix = swarm(cat({CREATE, EDIT, REFS, REFS, {{"parse", 4}, {"print", 4}, {"dup", 5}, {"delete", 5}, {"q_key", 1}, {"refuse", 2}, {"add_obj_cs", 4}}}), r);
         if (r.chance(1, 3)) { p.knobs["faults"] = 1; mix.push_back({"arm", 6}); mix.push_back({"print", 6}); mix.push_back({"parse", 4}); mix.push_back({"dup", 4}); }
         add_steps(p, CREATE, r, 3);
-        add_steps(p, mix, r, (int)r.range(5, 60));
+        add_steps(p, mix, r, len_range(r, 5, 60));
     } else if (prop == "C14") {
         common_knobs(p, r, 3);
         p.knobs["hooks"] = 0;
@@ -137,7 +147,7 @@ Plan gen_plan(const std::string &prop, uint64_t seed, int64_t run) {
         for (int e = 0; e < epochs; e++) {
             p.steps.push_back(make_step("hooks", r));
             add_steps(p, {{"parse", 3}, {"new_object", 1}, {"new_array", 1}}, r, 2, true);
-            add_steps(p, mix, r, (int)r.range(4, 25), true);
+            add_steps(p, mix, r, len_range(r, 4, 25), true);
         }
     } else if (prop == "C04" || prop == "C05" || prop == "C09") {
         int profile = prop == "C04" ? 1 : (prop == "C05" ? 2 : (int)r.below(3));
@@ -145,10 +155,11 @@ Plan gen_plan(const std::string &prop, uint64_t seed, int64_t run) {
         const char *judged = prop == "C04" ? "roundtrip" : (prop == "C05" ? "strictprint" : "capscan");
         auto stage = swarm(cat({CREATE, EDIT, {{"parse", 10}, {"dup", 2}, {"new_number", 6}, {"new_string", 6}, {"addh", 6}, {"bulk_double", 2}, {"set_number", 3}, {"set_valuestring", 2}}}), r);
         if (prop == "C05") stage.push_back({"poke_nan", 2});
-        if (prop == "C04" && r.chance(1, 12)) p.steps.push_back(make_step("build_deep", r));
+        if (r.chance(1, prop == "C09" ? 40 : 12)) p.steps.push_back(make_step("build_deep", r));
+        if (prop != "C09" && r.chance(1, 40)) p.steps.push_back(make_step("build_wide", r));
         int rounds = (int)r.range(1, 4);
         for (int k = 0; k < rounds; k++) {
-            add_steps(p, stage, r, (int)r.range(2, 14));
+            add_steps(p, stage, r, len_range(r, 2, 14));
             int j = (int)r.range(1, 3);
             for (int i = 0; i < j; i++) p.steps.push_back(make_step(judged, r));
         }
@@ -157,19 +168,21 @@ Plan gen_plan(const std::string &prop, uint64_t seed, int64_t run) {
         auto stage = swarm(cat({CREATE, EDIT, REFS, {{"parse", 5}, {"add_obj_cs", 4}}}), r);
         auto after = swarm(cat({EDIT, {{"delete", 4}, {"dupcheck", 3}, {"q_val", 1}, {"print", 2}}}), r);
         add_steps(p, CREATE, r, 2);
-        add_steps(p, stage, r, (int)r.range(3, 20));
+        add_steps(p, stage, r, len_range(r, 3, 20));
         p.steps.push_back(make_step("dupcheck", r));
         if (r.chance(1, 2)) p.steps.push_back(make_step("dupcheck", r));
         // refused duplicates (over-deep, cyclic) in the middle of the history: later duplicates must be unaffected
         if (r.chance(1, 10)) p.steps.push_back(make_step("dup_deep", r));
         if (r.chance(1, 5)) p.steps.push_back(make_step("dup_cyclic", r));
-        add_steps(p, after, r, (int)r.range(5, 30));
+        if (r.chance(1, 8)) p.steps.push_back(make_step("dup_refcycle", r));
+        if (r.chance(1, 25)) p.steps.push_back(make_step("dup_wide", r));
+        add_steps(p, after, r, len_range(r, 5, 30));
         if (r.chance(1, 12)) p.steps.push_back(make_step("dup_deep", r));
         if (r.chance(1, 8)) { p.steps.push_back(make_step("dup_cyclic", r)); p.steps.push_back(make_step("dupcheck", r)); }
     } else if (prop == "C16") {
         common_knobs(p, r, 3);
         int rounds = (int)r.range(1, 3);
-        add_steps(p, {{"parse", 1}}, r, (int)r.range(1, 2));
+        add_steps(p, {{"parse", 1}}, r, len_range(r, 1, 2));
         for (int k = 0; k < rounds; k++) {
             int n = (int)r.range(1, 8);
             int64_t doc = R(r);
@@ -177,15 +190,16 @@ Plan gen_plan(const std::string &prop, uint64_t seed, int64_t run) {
             for (int i = 0; i < n; i++) { Step s = make_step("pop", r); s.a[0] = doc; p.steps.push_back(s); }
             if (corrupt) { int c = (int)r.range(1, 2); for (int i = 0; i < c; i++) p.steps.push_back(make_step("pcorrupt", r)); }
             p.steps.push_back(make_step("patch_apply", r));
-            add_steps(p, cat({EDIT, QUERY, {{"print", 2}}}), r, (int)r.range(0, 4), true);
+            add_steps(p, cat({EDIT, QUERY, {{"print", 2}}}), r, len_range(r, 0, 4), true);
         }
     } else if (prop == "C17") {
-        common_knobs(p, r, 3);
+        common_knobs(p, r, r.chance(1, 3) ? 6 : 3);
+        g_casekeys = p.knobs["profile"] == 6;
         p.steps.push_back(make_step("parse", r));
         if (r.chance(1, 3)) p.steps.push_back(make_step("parse", r));
-        else { Step d = make_step("dup", r); d.a[0] = 0; d.a[1] = 0; d.a[2] = 1; p.steps.push_back(d); add_steps(p, swarm(cat({EDIT, {{"addh", 6}, {"delete_key", 4}, {"delete_idx", 3}, {"set_number", 3}, {"set_valuestring", 2}}}), r), r, (int)r.range(1, 6), true); }
+        else { Step d = make_step("dup", r); d.a[0] = 0; d.a[1] = 0; d.a[2] = 1; p.steps.push_back(d); add_steps(p, swarm(cat({EDIT, {{"addh", 6}, {"delete_key", 4}, {"delete_idx", 3}, {"set_number", 3}, {"set_valuestring", 2}}}), r), r, len_range(r, 1, 6), true); }
         p.steps.push_back(make_step("patch_gen", r));
-        add_steps(p, cat({EDIT, QUERY, {{"print", 2}, {"addh", 6}, {"add_obj", 4}}}), r, (int)r.range(3, 15), true);
+        add_steps(p, cat({EDIT, QUERY, {{"print", 2}, {"addh", 6}, {"add_obj", 4}}}), r, len_range(r, 3, 15), true);
         if (r.chance(1, 2)) p.steps.push_back(make_step("patch_gen", r));
     } else if (prop == "C18") {
         int prof = (int)r.below(4);
@@ -193,9 +207,9 @@ Plan gen_plan(const std::string &prop, uint64_t seed, int64_t run) {
         g_casekeys = prof >= 2;
         auto mixm = std::vector<W>{{"merge_apply", 3}, {"merge_gen", 3}, {"parse", 3}, {"dup", 1}, {"addh", 2}, {"delete_key", 1}, {"set_number", 1}};
         add_steps(p, {{"parse", 1}}, r, 2);
-        if (r.chance(1, 2)) { Step d = make_step("dup", r); d.a[2] = 1; p.steps.push_back(d); add_steps(p, cat({EDIT, {{"addh", 6}, {"delete_key", 4}}}), r, (int)r.range(1, 5), true); }
-        add_steps(p, mixm, r, (int)r.range(2, 8), true);
-        add_steps(p, cat({EDIT, QUERY, {{"print", 2}, {"addh", 6}, {"merge_gen", 3}, {"merge_apply", 2}}}), r, (int)r.range(3, 12), true);
+        if (r.chance(1, 2)) { Step d = make_step("dup", r); d.a[2] = 1; p.steps.push_back(d); add_steps(p, cat({EDIT, {{"addh", 6}, {"delete_key", 4}}}), r, len_range(r, 1, 5), true); }
+        add_steps(p, mixm, r, len_range(r, 2, 8), true);
+        add_steps(p, cat({EDIT, QUERY, {{"print", 2}, {"addh", 6}, {"merge_gen", 3}, {"merge_apply", 2}}}), r, len_range(r, 3, 12), true);
     } else if (prop == "C19") {
         auto follow = swarm(cat({EDIT, QUERY, {{"addh", 8}, {"add_obj", 4}, {"twinprint", 4}, {"sort", 3}, {"new_number", 2}, {"new_string", 2}, {"new_object", 1}, {"delete", 1}, {"dup", 1}}}), r);
         if (r.chance(1, 3)) {
@@ -213,10 +227,10 @@ Plan gen_plan(const std::string &prop, uint64_t seed, int64_t run) {
                         p.steps.push_back(make_step("patch_apply", r));
                         break;
                     }
-                    case 1: { Step d = make_step("dup", r); d.a[1] = 0; d.a[2] = 1; p.steps.push_back(d); add_steps(p, cat({EDIT, {{"addh", 6}, {"delete_key", 3}}}), r, (int)r.range(0, 3), true); p.steps.push_back(make_step("patch_gen", r)); break; }
-                    default: { Step d = make_step("dup", r); d.a[1] = 0; d.a[2] = 1; p.steps.push_back(d); add_steps(p, cat({EDIT, {{"addh", 6}, {"delete_key", 3}}}), r, (int)r.range(0, 3), true); p.steps.push_back(make_step("merge_gen", r)); break; }
+                    case 1: { Step d = make_step("dup", r); d.a[1] = 0; d.a[2] = 1; p.steps.push_back(d); add_steps(p, cat({EDIT, {{"addh", 6}, {"delete_key", 3}}}), r, len_range(r, 0, 3), true); p.steps.push_back(make_step("patch_gen", r)); break; }
+                    default: { Step d = make_step("dup", r); d.a[1] = 0; d.a[2] = 1; p.steps.push_back(d); add_steps(p, cat({EDIT, {{"addh", 6}, {"delete_key", 3}}}), r, len_range(r, 0, 3), true); p.steps.push_back(make_step("merge_gen", r)); break; }
                 }
-                add_steps(p, follow, r, (int)r.range(2, 12), true);
+                add_steps(p, follow, r, len_range(r, 2, 12), true);
             }
         } else {
             common_knobs(p, r, 0);
@@ -231,8 +245,9 @@ Plan gen_plan(const std::string &prop, uint64_t seed, int64_t run) {
             int rounds = (int)r.range(1, 3);
             for (int k = 0; k < rounds; k++) {
                 p.steps.push_back(make_step("sort", r));
-                add_steps(p, follow, r, (int)r.range(2, 15));
+                add_steps(p, follow, r, len_range(r, 2, 15));
             }
+            if (r.chance(1, 400)) p.steps.push_back(make_step("sort_big", r));
         }
     }
     return p;
